@@ -17,9 +17,14 @@ fn all_checks() -> Vec<Box<dyn DynCheck>> {
     vec![
         Box::new(Erased(checks::c01::C01)),
         Box::new(Erased(checks::c02::C02)),
+        Box::new(Erased(checks::c03::C03)),
         Box::new(Erased(checks::c02::C06)),
         Box::new(Erased(checks::c07::C07)),
         Box::new(Erased(checks::c08::C08)),
+        Box::new(Erased(checks::c10::C10)),
+        Box::new(Erased(checks::c11::C11)),
+        Box::new(Erased(checks::c11::C12)),
+        Box::new(Erased(checks::c13::C13)),
     ]
 }
 
